@@ -26,7 +26,9 @@ import (
 	"github.com/skycoin/skycoin/src/cipher"
 	"github.com/skycoin/skycoin/src/coin"
 	"github.com/skycoin/skycoin/src/params"
+	"github.com/skycoin/skycoin/src/visor/blockdb"
 	"github.com/skycoin/skycoin/src/visor/dbutil"
+	"github.com/skycoin/skycoin/src/visor/historydb"
 )
 
 type vcFinal struct {
@@ -90,6 +92,45 @@ func vcCopy(src, dst string) error {
 	defer out.Close()
 	_, err = io.Copy(out, in)
 	return err
+}
+
+// one event of a node life for specs/crash/TraceCrash.tla
+type vcEv struct {
+	Ev      string   `json:"ev"`
+	Name    string   `json:"name"`
+	Kind    string   `json:"kind"`
+	Buckets bool     `json:"buckets"`
+	Blocks  int      `json:"blocks"`
+	Pool    int      `json:"pool"`
+	History int      `json:"history"`
+	ID      int      `json:"id"`
+	Plan    []int    `json:"plan"`
+	Torn    bool     `json:"torn"`
+	Script  []vcSEv  `json:"script"`
+}
+
+type vcSEv struct {
+	Ev string `json:"ev"`
+	K  int    `json:"k"`
+}
+
+// the abstract disk of Crash.tla read back from the database: buckets created?, number of blocks, pool size, history height
+func vcProject(db *dbutil.DB) (e vcEv) {
+	_ = db.View("verif project", func(tx *dbutil.Tx) error {
+		e.Buckets = dbutil.Exists(tx, blockdb.BlocksBkt)
+		e.History = -1
+		if !e.Buckets {
+			return nil
+		}
+		n, _ := dbutil.Len(tx, blockdb.BlocksBkt)
+		e.Blocks = int(n)
+		n, _ = dbutil.Len(tx, UnconfirmedTxnsBkt)
+		e.Pool = int(n)
+		n, _ = dbutil.Len(tx, historydb.TransactionsBkt)
+		e.History = int(n) - 1 // one transaction per block in these scripts, the genesis block included
+		return nil
+	})
+	return e
 }
 
 const vcPage = 4096
@@ -159,7 +200,13 @@ func vcTornImages(pre, post []byte) (imgs [][]byte, descr []vcTorn) {
 }
 
 // runs the node on dbPath: start-up, then the steps not yet reflected in the database; the hook sees every commit
-func vcRun(t *testing.T, dbPath string, cfg Config, steps []vcStep, verify bool, pub cipher.PubKey, hook func(name string, stepsDone int)) (check string, checkMs int64, restart string, fin vcFinal, left int) {
+func vcRun(t *testing.T, dbPath string, cfg Config, steps []vcStep, verify bool, pub cipher.PubKey, hook func(name string, stepsDone int), events *[]vcEv) (check string, checkMs int64, restart string, fin vcFinal, left int) {
+	log := func(e vcEv) {
+		if events != nil {
+			e.Plan, e.Script = []int{}, []vcSEv{}
+			*events = append(*events, e)
+		}
+	}
 	check, restart = "skipped", "ok"
 	dbutil.VerifCommitHook = nil
 	db, err := OpenDB(dbPath, false)
@@ -200,6 +247,11 @@ func vcRun(t *testing.T, dbPath string, cfg Config, steps []vcStep, verify bool,
 	}
 	stepsDone := 0
 	dbutil.VerifCommitHook = func(name string) {
+		// the linearization point: bolt's Update has returned, nobody has seen the new state yet
+		log(vcEv{Ev: "begin", Name: name})
+		pr := vcProject(db)
+		pr.Ev, pr.Name = "commit", name
+		log(pr)
 		if hook != nil {
 			hook(name, stepsDone)
 		}
@@ -231,11 +283,13 @@ func vcRun(t *testing.T, dbPath string, cfg Config, steps []vcStep, verify bool,
 		switch s.kind {
 		case "block":
 			if s.blk.Head.BkSeq <= head {
+				log(vcEv{Ev: "skip", Kind: "block"})
 				continue
 			}
 			err = v.ExecuteSignedBlock(s.blk)
 		case "inject":
 			if s.blk.Head.BkSeq <= head { // it is the transaction of that block: already confirmed
+				log(vcEv{Ev: "skip", Kind: "inject"})
 				continue
 			}
 			_, _, err = v.InjectForeignTransaction(s.txn)
@@ -250,6 +304,7 @@ func vcRun(t *testing.T, dbPath string, cfg Config, steps []vcStep, verify bool,
 		stepsDone = i + 1
 	}
 	dbutil.VerifCommitHook = nil
+	log(vcEv{Ev: "done"})
 	// final state
 	err = db.View("verif final", func(tx *dbutil.Tx) error {
 		h, err := v.blockchain.Head(tx)
@@ -300,6 +355,43 @@ func TestVerifCrash(t *testing.T) {
 	}
 	w := bufio.NewWriter(f)
 	enc := json.NewEncoder(w)
+	tf, err := os.Create(filepath.Join(out, "trace.ndjson"))
+	if err != nil {
+		t.Fatal(err)
+	}
+	tw := bufio.NewWriter(tf)
+	tenc := json.NewEncoder(tw)
+	traceID := 0
+	var script []vcSEv
+	// one life: a header carrying the script, then the events of its runs with "crash" between them
+	writeTrace := func(plan []int, torn bool, runs ...[]vcEv) {
+		_ = tenc.Encode(vcEv{Ev: "trace", ID: traceID, Plan: plan, Torn: torn, Script: script})
+		traceID++
+		for i, r := range runs {
+			if i > 0 {
+				_ = tenc.Encode(vcEv{Ev: "crash", Plan: []int{}, Script: []vcSEv{}})
+			}
+			for _, e := range r {
+				_ = tenc.Encode(e)
+			}
+		}
+	}
+	// the events of a run up to and including the k-th commit (or, inside = true, only the "begin" of the k-th commit)
+	upTo := func(evs []vcEv, k int, inside bool) []vcEv {
+		n := -1
+		for i, e := range evs {
+			if e.Ev == "begin" {
+				n++
+				if n == k && inside {
+					return evs[:i+1]
+				}
+			}
+			if e.Ev == "commit" && n == k && !inside {
+				return evs[:i+1]
+			}
+		}
+		return evs
+	}
 	dir, err := ioutil.TempDir("", "verifcrash")
 	if err != nil {
 		t.Fatal(err)
@@ -366,6 +458,10 @@ func TestVerifCrash(t *testing.T) {
 	live := filepath.Join(dir, "live.db")
 	var commits []string
 	var doneAt []int
+	for _, st := range steps {
+		script = append(script, vcSEv{Ev: st.kind, K: int(st.blk.Head.BkSeq)})
+	}
+	var liveEv []vcEv
 	_, _, restart, expected, _ := vcRun(t, live, cfg, steps, false, pub, func(name string, stepsDone int) {
 		k := len(commits)
 		commits = append(commits, name)
@@ -373,10 +469,11 @@ func TestVerifCrash(t *testing.T) {
 		if err := vcCopy(live, filepath.Join(dir, fmt.Sprintf("crash_%d.db", k))); err != nil {
 			t.Fatal(err)
 		}
-	})
+	}, &liveEv)
 	if restart != "ok" {
 		t.Fatalf("the uncrashed run failed: %s", restart)
 	}
+	writeTrace([]int{}, false, liveEv)
 	_ = enc.Encode(vcRec{Fn: "uncrashed", Plan: []int{}, After: []string{}, Check: "skipped", Restart: "ok", Final: expected, Expected: expected, Commits: commits})
 	// also the database file before anything was committed to it (created, no buckets)
 	for k := -1; k < len(commits); k++ {
@@ -405,8 +502,16 @@ func TestVerifCrash(t *testing.T) {
 				commits2 = append(commits2, name)
 				_ = vcCopy(img, filepath.Join(dir, fmt.Sprintf("crash2_%d.db", j)))
 			}
-			chk, ms, rs, fin, left := vcRun(t, img, cfg, steps, verify, pub, hook)
+			var ev1 []vcEv
+			chk, ms, rs, fin, left := vcRun(t, img, cfg, steps, verify, pub, hook, &ev1)
 			os.Remove(img + ".done")
+			if rs != "not-attempted" && !verify {
+				if k >= 0 {
+					writeTrace([]int{k}, false, upTo(liveEv, k, false), ev1)
+				} else {
+					writeTrace([]int{k}, false, []vcEv{}, ev1)
+				}
+			}
 			_ = enc.Encode(vcRec{Fn: "crash", Plan: []int{k}, After: []string{after}, Verify: verify, Check: chk, CheckMs: ms, Restart: rs, Final: vcNN(fin), Expected: expected, Commits: commits, StepsLeft: left})
 			if depth >= 2 && !verify {
 				for j := range commits2 {
@@ -414,7 +519,15 @@ func TestVerifCrash(t *testing.T) {
 					if err := vcCopy(filepath.Join(dir, fmt.Sprintf("crash2_%d.db", j)), img2); err != nil {
 						t.Fatal(err)
 					}
-					chk, ms, rs, fin, left := vcRun(t, img2, cfg, steps, j%2 == 0, pub, nil)
+					var ev2 []vcEv
+					chk, ms, rs, fin, left := vcRun(t, img2, cfg, steps, j%2 == 0, pub, nil, &ev2)
+					if rs != "not-attempted" {
+						first := []vcEv{}
+						if k >= 0 {
+							first = upTo(liveEv, k, false)
+						}
+						writeTrace([]int{k, j}, false, first, upTo(ev1, j, false), ev2)
+					}
 					_ = enc.Encode(vcRec{Fn: "crash", Plan: []int{k, j}, After: []string{after, commits2[j]}, Verify: j%2 == 0, Check: chk, CheckMs: ms, Restart: rs, Final: vcNN(fin), Expected: expected, Commits: commits, StepsLeft: left})
 				}
 			}
@@ -441,7 +554,11 @@ func TestVerifCrash(t *testing.T) {
 			if err := ioutil.WriteFile(path, img, 0600); err != nil {
 				t.Fatal(err)
 			}
-			chk, ms, rs, fin, left := vcRun(t, path, cfg, steps, verify, pub, nil)
+			var ev1 []vcEv
+			chk, ms, rs, fin, left := vcRun(t, path, cfg, steps, verify, pub, nil, &ev1)
+			if rs != "not-attempted" && descr[x].Pages == 0 && !descr[x].Half {
+				writeTrace([]int{k}, true, upTo(liveEv, k, true), ev1)
+			}
 			_ = enc.Encode(vcRec{Fn: "torn", Torn: descr[x], Plan: []int{k}, After: []string{"inside " + commits[k]}, Verify: verify, Check: chk, CheckMs: ms, Restart: rs, Final: vcNN(fin),
 				Expected: expected, Commits: commits, StepsLeft: left})
 			if chk != "timeout-and-not-stoppable" {
@@ -451,4 +568,6 @@ func TestVerifCrash(t *testing.T) {
 	}
 	w.Flush()
 	f.Close()
+	tw.Flush()
+	tf.Close()
 }
